@@ -368,10 +368,10 @@ Proof.
 Qed.
 Lemma continue_auth_np w n now r : leaves np (continue_auth w n now r).
 Proof.
-  unfold continue_auth. cbn. intros rp. destruct rp; try rr.
+  unfold continue_auth. destruct (is_nil (cb_id r)); [rr|]. cbn. intros rp. destruct rp; try rr.
   break_goal; [rr|].
   eapply leaves_bind; [apply authenticate_np|]. intros a Ha. destruct a; [exact Ha|].
-  eapply leaves_bind; [apply leaves_true|]. intros oc _. destruct oc; [apply np_render|rr].
+  eapply leaves_bind; [apply leaves_true|]. intros oc _. destruct oc; [apply np_render|cbn; intros; rr].
 Qed.
 Lemma push_auth_np w n now r : leaves np (push_auth w n now r).
 Proof.
@@ -683,10 +683,10 @@ Proof.
         exfalso. cbn in HH. rewrite Hid, EC in HH. discriminate.
 Qed.
 
-Lemma continue_auth_5xx w n now r st : one_index st -> is_nil (cb_id r) = false ->
+Lemma continue_auth_5xx w n now r st : one_index st ->
   is_internal (snd (run_seq (continue_auth w n now r) st)) = true -> cb_pol r = PolFailWith EInternalError.
 Proof.
-  intros HI Hcb. unfold continue_auth. cbn. unfold reply_a.
+  intros HI. unfold continue_auth. destruct (is_nil (cb_id r)) eqn:Hcb; [cbn; discriminate|]. cbn. unfold reply_a.
   destruct (find _ _) as [s|] eqn:EF; [|solve [done]].
   apply find_In in EF as [Hin Hc]. apply N.eqb_eq in Hc.
   assert (Hnc : is_nil (a_cb s) = false) by (rewrite Hc; assumption).
@@ -797,9 +797,9 @@ Proof.
 Qed.
 Lemma continue_auth_sok w n now r : sok (continue_auth w n now r).
 Proof.
-  unfold continue_auth. cbn. split; [exact I|]. intros rp. destruct rp; try exact I.
+  unfold continue_auth. destruct (is_nil (cb_id r)); [exact I|]. cbn. split; [exact I|]. intros rp. destruct rp; try exact I.
   break_goal; [exact I|]. apply saves_ok_bind; [apply authenticate_sok|]. intros [o|e]; [exact I|].
-  apply saves_ok_bind; [apply get_client_sok|]. intros [c|]; exact I.
+  apply saves_ok_bind; [apply get_client_sok|]. intros [c|]; [exact I|]. cbn. split; [exact I|]. intros; exact I.
 Qed.
 Lemma push_auth_sok w n now r : sok (push_auth w n now r).
 Proof. unfold push_auth. break_goal; [exact I|]. sv_auth. sv. Qed.
